@@ -1,12 +1,19 @@
 package c26
 
-// `c26 livex <seed> <version> <suite> <mode>` (T3 only): the exporter of a LIVE connection queried the way an
+// `c26 livex <seed> <version> <suite> <mode> [<clientauth> <clientcert>]` (T3 only): the exporter of a LIVE connection queried the way an
 // application does — several ConnectionState().ExportKeyingMaterial calls with different labels / contexts (nil,
 // empty, non-empty) / lengths on the same connection, on BOTH ends, in different orders, with one query repeated.
 // mode 0: full handshake; mode 1: the second of two connections, resumed through a session cache (ticket / PSK).
+// clientauth: the server's Config.ClientAuth (0 NoClientCert .. 4 RequireAndVerifyClientCert), clientcert: none | rsa |
+// ecdsa | ed25519 = the certificate the client owns.  With clientauth >= 1 the server sends a CertificateRequest and the
+// client answers with Certificate (possibly empty) [+ CertificateVerify]: those messages come AFTER the point of the
+// transcript the TLS 1.3 exporter secret is derived at (ClientHello..server Finished, RFC 8446 7.1), so both ends must
+// still export the reference value.
 //
 // Oracle: (a) every query gives the same bytes on both ends although the ends issue the queries in different orders,
-// (b) a repeated query gives the same bytes again, (c) every answer is the RFC value recomputed by the reference:
+// (b) a repeated query gives the same bytes again, (d) the same queries issued CONCURRENTLY from several goroutines
+// through the one connection (stored ConnectionState copies and fresh ones share the closure kept in Conn.ekm) give the
+// same bytes again, (c) every answer is the RFC value recomputed by the reference:
 // TLS <= 1.2 from the logged master secret and the hello randoms (RFC 5705); TLS 1.3 full handshakes from the WIRE:
 // the client's X25519 private key is taken from a recording Config.Rand, the server share from the plaintext
 // ServerHello, the server's encrypted flight is decrypted with the reference's own handshake traffic keys, and the
@@ -211,6 +218,9 @@ func (q xq) String() string {
 	c := "nil"
 	if q.ctx != nil {
 		c = zv.Hex(q.ctx)
+		if len(q.ctx) > 160 {
+			c = fmt.Sprintf("%s…[%d bytes]", zv.Hex(q.ctx[:24]), len(q.ctx))
+		}
 	}
 	return fmt.Sprintf("(%q, %s, %d)", q.label, c, q.n)
 }
@@ -220,6 +230,10 @@ func execLiveX(f []string) zv.Out {
 	vers64, _ := strconv.ParseUint(f[3], 10, 16)
 	suite64, _ := strconv.ParseUint(f[4], 10, 16)
 	mode := atoi(f[5])
+	auth, ccert := 0, "none"
+	if len(f) >= 8 {
+		auth, ccert = atoi(f[6]), f[7]
+	}
 	version, suite := uint16(vers64), uint16(suite64)
 	r := zv.NewRng(seed)
 	pki := tlsrig.GetPKI()
@@ -230,6 +244,17 @@ func execLiveX(f []string) zv.Out {
 	ccfg := &tls.Config{ServerName: tlsrig.Host, RootCAs: pki.Roots, MinVersion: version, MaxVersion: version,
 		CipherSuites: []uint16{suite}, ForceSuites: true, SessionTicketsDisabled: mode == 0, Rand: rr,
 		CurvePreferences: []tls.CurveID{tls.X25519}}
+	scfg.ClientAuth = tls.ClientAuthType(auth)
+	if auth >= int(tls.VerifyClientCertIfGiven) {
+		scfg.ClientCAs = pki.Roots
+	}
+	if ccert != "none" {
+		cc, ok := pki.Client[ccert]
+		if !ok {
+			return zv.Out{Viol: "harness: unknown client certificate kind " + ccert}
+		}
+		ccfg.Certificates = []tls.Certificate{cc}
+	}
 	if mode == 1 {
 		ccfg.ClientSessionCache = cache
 		var k [32]byte
@@ -237,6 +262,9 @@ func execLiveX(f []string) zv.Out {
 		scfg.SetSessionTicketKeys([][32]byte{k})
 	}
 	tags := []string{"op=livex", fmt.Sprintf("version=%04x", version), fmt.Sprintf("live-suite=%04x", suite), fmt.Sprintf("mode=%d", mode)}
+	if len(f) >= 8 {
+		tags = append(tags, fmt.Sprintf("client-auth=%d/%s", auth, map[bool]string{true: "cert", false: "nocert"}[ccert != "none"]), fmt.Sprintf("client-auth:version=%04x", version))
+	}
 	var res *tlsrig.Result
 	var firstMaster []byte
 	for conn := 0; conn <= mode; conn++ {
@@ -265,6 +293,12 @@ func execLiveX(f []string) zv.Out {
 	defer res.Server.Conn.Close()
 	if res.Client.State.Version != version || res.Client.State.CipherSuite != suite {
 		return zv.Out{Viol: fmt.Sprintf("rig: negotiated %04x/%04x", res.Client.State.Version, res.Client.State.CipherSuite), Tags: tags}
+	}
+	if auth >= 1 && mode == 0 {
+		if got := len(res.Server.State.PeerCertificates) > 0; got != (ccert != "none") {
+			return zv.Out{Viol: fmt.Sprintf("rig: client auth %d with client certificate %s: server saw a client certificate = %v", auth, ccert, got), Tags: tags}
+		}
+		tags = append(tags, "certificate-request-answered")
 	}
 	if mode == 1 && !(res.Client.State.DidResume && res.Server.State.DidResume) {
 		return zv.Out{Viol: fmt.Sprintf("rig: second connection not resumed (client %v server %v)", res.Client.State.DidResume, res.Server.State.DidResume), Tags: tags}
@@ -330,6 +364,8 @@ func execLiveX(f []string) zv.Out {
 		prevCtx = append(prevCtx, q.ctx)
 		qs = append(qs, q)
 	}
+	// one query with a long context: hashing it takes long enough for concurrent calls to overlap
+	qs = append(qs, xq{label: "EXPORTER-zv-long", ctx: r.Bytes(9000 + r.Intn(20000)), n: 32})
 	// client: in order, then query 0 again; server: a rotation of the reversed order, then its first one again
 	cOrder, sOrder := []int{}, []int{}
 	for i := range qs {
@@ -382,8 +418,73 @@ func execLiveX(f []string) zv.Out {
 		tags = append(tags, "res="+strings.Fields(cg[i][0])[0])
 	}
 	tags = append(tags, fmt.Sprintf("queries=%d", len(qs)))
+	// (d) the same queries, concurrently, through the same two connections
+	if len(viol) == 0 {
+		want := make([]string, len(qs))
+		for i := range qs {
+			want[i] = cg[i][0]
+		}
+		calls, bad, first := exportConcurrently([]*tls.Conn{res.Client.Conn, res.Server.Conn}, []tls.ConnectionState{res.Client.State, res.Server.State}, qs, want, 8, 6)
+		tags = append(tags, "concurrent-exports")
+		if bad > 0 {
+			viol = append(viol, fmt.Sprintf("%d of %d CONCURRENT ExportKeyingMaterial calls on one connection (8 goroutines, both ends) differ from the answer the same query got sequentially: %s", bad, calls, first))
+		}
+	}
 	if len(viol) > 3 {
 		viol = viol[:3]
 	}
 	return zv.Out{Tags: tags, Viol: strings.Join(viol, " | ")}
+}
+
+// exportConcurrently issues every query rounds times from each of g goroutines (goroutine k works on conns[k%len(conns)],
+// alternately through the stored ConnectionState and through a fresh one, starting at a different query) and compares
+// every answer with want.  All goroutines are released together.
+func exportConcurrently(conns []*tls.Conn, states []tls.ConnectionState, qs []xq, want []string, g, rounds int) (calls, bad int, first string) {
+	var wg sync.WaitGroup
+	var mu sync.Mutex
+	start := make(chan struct{})
+	for k := 0; k < g; k++ {
+		wg.Add(1)
+		go func(k int) {
+			defer wg.Done()
+			side := k % len(conns)
+			nb, nc, fst := 0, 0, ""
+			<-start
+			for rd := 0; rd < rounds; rd++ {
+				for j := range qs {
+					i := (j + k + rd) % len(qs)
+					q := qs[i]
+					st := states[side]
+					if (j+rd)%2 == 1 {
+						st = conns[side].ConnectionState()
+					}
+					got := catch(func() string { return ekmOut(st.ExportKeyingMaterial(q.label, q.ctx, q.n)) })
+					nc++
+					if got != want[i] {
+						nb++
+						if fst == "" {
+							fst = fmt.Sprintf("goroutine %d (%s) query %v: got %s, sequential answer %s", k, []string{"client", "server"}[side%2], q, clip(got), clip(want[i]))
+						}
+					}
+				}
+			}
+			mu.Lock()
+			calls += nc
+			bad += nb
+			if first == "" {
+				first = fst
+			}
+			mu.Unlock()
+		}(k)
+	}
+	close(start)
+	wg.Wait()
+	return
+}
+
+func clip(s string) string {
+	if len(s) > 140 {
+		return s[:140] + "…"
+	}
+	return s
 }
